@@ -151,6 +151,32 @@ def replay_transaction(w, rec):
       text.append('reply split after %d byte(s): caller received %r instead of the %d-byte reply' % (
         first, (what[0], getattr(what[1], 'error', None)) if what else None, len(payload)))
       bad = True
+  # (d) a peer that goes silent at some point of the exchange, request with a deadline: the request must be failed
+  #     (once) and the connection recycled, wherever the silence starts
+  import time as _time
+  for where in ('before the header', 'after the header'):
+    class SilentSock(FakeSocket):
+      def __init__(self):
+        FakeSocket.__init__(self)
+        self.reads = 0
+      def readAll(self, n):
+        self.reads += 1
+        if where == 'after the header' and self.reads == 1:
+          return __import__('struct').pack('!i', 16)
+        _g.sleep(5)                 # silence: only the deadline timer can end this
+        raise EOFError()
+    sock = SilentSock()
+    sink = make_sink(sock)
+    stack = ClientMessageSinkStack(); r = Recorder(); stack.Push(r, None)
+    gl = _g.spawn(sink._AsyncProcessTransaction, b'request', stack, _time.time() + 0.05)
+    gl.join(0.6)
+    done = gl.ready()
+    if not done:
+      gl.kill(block=False)
+    if not done or len(r.got) != 1 or sink._processing is not None:
+      text.append('peer silent %s (deadline 50 ms): request failed %d time(s) after 600 ms, slot %s, connection %s' % (
+        where, len(r.got), 'still occupied' if sink._processing is not None else 'free', 'recycled' if sock.opens else 'not recycled'))
+      bad = True
   return bad, '\n'.join(text) if text else 'reconnect failure faults the transport; nothing written at the deadline; reply independent of segmentation'
 
 
@@ -201,3 +227,70 @@ def replay_deserialize(w, rec):
 
 
 REPLAYS['MessageSerializer.DeserializeThriftCall'] = replay_deserialize
+
+
+def replay_socket_open(w, rec):
+  """ScalesSocket.open on the real class with the connect of gevent's socket scripted: refused on every candidate
+  address, refused on the first only, and accepted.  A socket whose open() raised must not report itself open."""
+  import socket as _socket
+  from scales import scales_socket as SS
+  from scales.varz import VarzSocketWrapper
+  bad = []
+  made = []
+  class FakeG(object):
+    script = []
+    def __init__(self, family, kind):
+      self.closed = False
+      self.connected = False
+      made.append(self)
+    def connect(self, addr):
+      ok = FakeG.script.pop(0)
+      if not ok:
+        raise _socket.error(111, 'Connection refused')
+      self.connected = True
+    def close(self):
+      self.closed = True
+      self.connected = False
+    def setsockopt(self, *a):
+      pass
+  saved = SS.gsocket
+  SS.gsocket = FakeG
+  try:
+    for desc, naddr, script, expect_open in (('refused on the only address', 1, [False], False), ('refused on both addresses', 2, [False, False], False),
+                                             ('refused on the first address, accepted on the second', 2, [False, True], True), ('accepted', 1, [True], True)):
+      del made[:]
+      FakeG.script = list(script)
+      s = SS.ScalesSocket('h', 1)
+      s._resolveAddr = lambda n=naddr: [(2, 1, 6, '', ('10.0.0.%d' % i, 1)) for i in range(n)]
+      raised = False
+      try:
+        s.open()
+      except _socket.error:
+        raised = True
+      if raised == expect_open:
+        bad.append('%s: open() %s' % (desc, 'raised' if raised else 'did not raise'))
+      if raised and s.isOpen():
+        bad.append('%s: open() raised but isOpen() is True (an unconnected handle is kept): the transport keeps reporting itself open' % desc)
+      if not raised and not (s.handle is not None and s.handle.connected and not s.handle.closed):
+        bad.append('%s: open() returned but the handle is not a connected socket' % desc)
+      leaked = [g for g in made if g is not s.handle and not g.closed]
+      if leaked:
+        bad.append('%s: %d socket(s) of failed attempts were never closed' % (desc, len(leaked)))
+      # through the wrapper the library puts around it
+      del made[:]
+      FakeG.script = list(script)
+      s2 = SS.ScalesSocket('h', 1)
+      s2._resolveAddr = lambda n=naddr: [(2, 1, 6, '', ('10.0.0.%d' % i, 1)) for i in range(n)]
+      wr = VarzSocketWrapper(s2, 'replay')
+      try:
+        wr.open()
+      except _socket.error:
+        wr.close()
+        if wr.isOpen():
+          bad.append('%s: wrapped socket still reports open after a failed open() and close()' % desc)
+  finally:
+    SS.gsocket = saved
+  return bool(bad), '\n'.join(bad) or 'a failed open leaves the socket closed; a successful one holds a connected handle'
+
+
+REPLAYS['ScalesSocket.open'] = replay_socket_open
